@@ -19,7 +19,7 @@ CHECKS = {
             'For each produced solution (and a second pass in which every line of every participating form is demanded, so each rule\'s operands exist) every line that has an official rule is '
             'recomputed from the other lines of the same solution: about 100 rules per year are parsed from the accessibility text of the template field the line is written into (add / subtract with floor / '
             'multiply by the printed rate / smaller of / carry in and out), about 90 per year are cited transcriptions (capital-gain worksheet, Form 6251 worksheet, Credit Limit Worksheet A, '
-            '"see instructions" lines of Form 1040, NC D-400 and its schedules). Evidence lists rules never exercised non-trivially as not observed.',
+            '"see instructions" lines of Form 1040, NC D-400 and its schedules). Required-line rules (a part the instructions require - Schedule B Part III, the capital-gain worksheet, Form 8606 lines 15b/15c - may not be left out of a solved return) and the N.C. use-tax table are transcribed too; purpose-built returns put amounts exactly on band edges, table limits and multiples. Evidence lists rules never exercised non-trivially as not observed.',
             'Transcribed rules are weaker evidence (labelled); carries are asserted only for lines the return uses.',
             'DESIGN.md section 4, C02'),
     'C08': ('exploration',
@@ -35,7 +35,7 @@ CHECKS = {
             'spec/gates.py curates ~70 gate inputs per year from the input descriptions. On every traced solve, a consultation of a gate with the affirmative answer '
             '(a READ_INPUT by a line, or a read of an input form\'s echo line by another form) must not coexist with a solved verdict. Each gate is flipped in up to 3 (quick) / 10 '
             '(thorough) base scenarios that solve and read it; limit-type gates (foreign tax above the Form 1116 ceiling, more than 14 payers with Schedule B required, HSA contribution '
-            'above the limit alone, together with the employer\'s contribution, and with family coverage) are directed cases; thorough adds random multi-gate flips. A fixed pool of witness returns (independent of VERIF_SEED) is compared with the committed list spec/gate_witness.json of (year, gate) pairs it consults: a listed gate that is no longer consulted is reported (a dropped gate). Evidence lists gates never read and gates flipped but never reached.',
+            'above the limit alone, together with the employer\'s contribution, and with family coverage) are directed cases; thorough adds random multi-gate flips. After a flip that reaches its gate the same return is also solved in two calls on one Solver (what the first call found is not forgotten). A fixed pool of witness returns (independent of VERIF_SEED) is compared with the committed list spec/gate_witness.json of (year, gate) pairs it consults: a listed gate that is no longer consulted is reported (a dropped gate). Evidence lists gates never read and gates flipped but never reached.',
             'The curated list is the trusted base; a gate not read imposes nothing; aborts count as not solved.',
             'DESIGN.md section 4, C09'),
     'C10': ('exploration',
@@ -48,13 +48,13 @@ CHECKS = {
     'C15': ('exploration',
             'invariant monitor on the typed solution of every solved explored return (balance equations, curated non-negative lines, ratio range)',
             'For every solved persona return: federal overpayment minus owed equals payments minus tax, not both positive, refund plus applied equals overpayment; the NC analogue on both '
-            'branches; every line on the curated non-negative list is >= 0; Form 8606 line 10 in [0,1]. Floors require both refund and owed branches in every year. Purpose-built returns (net capital gain above taxable income with REIT dividends, N.C. overpayments with designations around them, Form 8606 parts, high earners ...) run next to the random personas.',
+            'branches; every line on the curated non-negative list is >= 0; Form 8606 line 10 in [0,1]. Floors require both refund and owed branches in every year. Every third return is repeated with the withholding moved so that payments and tax differ by a dollar, a cent, nothing, 50+ cents (part or all of the refund applied to next year). Purpose-built returns (net capital gain above taxable income with REIT dividends, a foreign tax credit above a tiny tax, advance child-credit payments, N.C. overpayments with designations around them, Form 8606 parts, high earners ...) run next to the random personas.',
             'Personas supply non-negative amounts; the non-negative list is curated in hv/monitors/c15.py.',
             'DESIGN.md section 4, C15'),
     'C16': ('exploration',
             'metamorphic monitor over pairs of real solves (copy renumbering, wage / deduction / withholding increments)',
             'For solved bases: every permutation (quick: two) of the instance numbers of W-2/1099/1098 copies must change nothing but the renamed sections and the order of Schedule B listing rows; '
-            'wage increments (1, 50, 1000, 25000) must not lower line 24; increments of each deductible input must not raise it; increments of withholding must move line 34 - line 37 by exactly that amount, and increments of N.C. tax withheld (W-2 box 17, the state boxes of the 1099s) the N.C. overpayment minus tax due; the N.C. income tax is checked for the same monotonicity and wages are stepped across every edge of the N.C. child-deduction bands. '
+            'wage increments (1, 50, 1000, 25000) must not lower line 24; increments of each deductible input must not raise it; increments of withholding must move line 34 - line 37 by exactly that amount, and increments of N.C. tax withheld (W-2 box 17, the state boxes of the 1099s) the N.C. overpayment minus tax due; the N.C. income tax and total N.C. tax are checked for the same monotonicity and wages are stepped across every edge of the N.C. child-deduction bands and over the limits and the end of the N.C. use-tax table; second state rows of the statements included. '
             'Only pairs in which both returns solve are compared.',
             'Monotonicity only for the relations the property names; 1-cent tolerance.',
             'DESIGN.md section 4, C16'),
@@ -64,7 +64,7 @@ CHECKS = {
             'a value requires the key to be present, the input\'s own validator to accept the text, the declared Python type, a finite number, and equality with '
             'an independent model of the type; MissingInput requires absence; InvalidInput requires invalid text. Workload: adversarial strings per input type '
             '(whitespace, case, signs, exponents, nan/inf, underscores, unicode digits, near-miss enumeration names; 3000 per type quick, 100000 thorough), by file and '
-            'by prompt, the CLI prompt loop with invalid-then-valid answers, every shipped input with type corpora, and every input read of explored real returns.',
+            'by prompt, the CLI prompt loop with invalid-then-valid answers, every shipped input with type corpora, and every input read of explored real returns (also with the statement copies requested by name, last first). Histories on one store: read - delete - read (then not supplied) and read - replace - read (then the new text decides). A line that read an absent or rejected input and still answered is reported (the signal was swallowed).',
             "Numeric text is valid iff Python int()/float() accepts it and it is finite; '%' is outside the alphabet (C14).",
             'DESIGN.md section 4, C11'),
     'C14': ('exploration',
@@ -72,7 +72,7 @@ CHECKS = {
             'For every solved explored return (all years) the solution is written exactly as the CLI writes it and read back by `habutax fill-pdfs` (stand-in pdftk); '
             'every value loaded must equal the value solved (numbers/booleans exactly, enumerations by member, text up to surrounding whitespace). A closed list of value '
             'classes for every line type and decimal-place setting goes through the same path. The real CLI is run per year to check the file carries its tax year and '
-            'only that year\'s templates are used; the --solution path is one used before for a larger return (the file must be exactly the new solution).',
+            'only that year\'s templates are used; the --solution path is one used before for a larger return (the file must be exactly the new solution); the partial solution of an unsolved return carries the year as well; every third return is reached in two calls on one Solver with the intermediate solution looked at.',
             'Known findings: ConfigParser interpolation of % and comment-like continuation lines (listed in known_findings.json).',
             'DESIGN.md section 4, C14'),
     'C17': ('exploration',
@@ -87,14 +87,14 @@ CHECKS = {
             'All 1665 mappings: the target exists in the template, kinds agree, check-box export values for every value of the driving line are template export values, '
             'length limits agree, no field is mapped twice, exclusive groups have at most one box on for every value of the driving line, every fileable form has a template '
             'and mappings, every mapped line exists, and where the template\'s accessibility text (or NC field-name suffix) carries a line label in reading order the mapped line is that line. Fills of real solved '
-            'returns check groups whose boxes are driven by several lines (NC filing status, yes/no pairs).',
+            'returns check groups whose boxes are driven by several lines (NC filing status, yes/no pairs). A number printed across two boxes (Form 8606 line 10) must read, for every value, as the value rounded to the decimals printed.',
             'Trusts hv/pdfspec.py and a three-entry alias table; labels out of the template\'s own reading order are ignored and counted.',
             'DESIGN.md section 4, C18'),
     'C19': ('exploration',
             'FDF tokenizer and argv log at a stand-in pdftk placed first on PATH, against an independent filing table',
             'Every solved explored return is filled through PDFFiller; the captured FDF is tokenised under PDF string syntax and must decode to exactly the mapped text of every field; '
             'the filled forms must be exactly those needing filing (never worksheets or input forms), once each, concatenated by jurisdiction and the attachment sequence printed in the '
-            'templates; adversarial printable-ASCII text is injected through every string input; over-long values and a failing pdftk must stop the fill.',
+            'templates; adversarial printable-ASCII text (parentheses, backslashes, quotes, runs of blanks) is injected through every string input; over-long values and a failing pdftk must stop the fill. The real `fill-pdfs` command is run on written solutions: its filing set and every text box against the values the solve produced.',
             'Expected text of a box is the mapping applied to the value the filler loaded.',
             'DESIGN.md section 4, C19'),
     'C20': ('fault_enumeration',
